@@ -322,8 +322,6 @@ class List(list, base.Symbolic, pg_typing.CustomTyping):
     """Override Symbolic._clone."""
     source = []
     for v in self.sym_values():
-      if pg_typing.MISSING_VALUE == v:
-        continue
       if deep or isinstance(v, base.Symbolic):
         v = base.clone(v, deep, memo)
       source.append(v)
@@ -333,7 +331,7 @@ class List(list, base.Symbolic, pg_typing.CustomTyping):
     # `pg.allow_partial` scope, which would be written into typed elements.)
     with flags.allow_partial(None):
       new_list = List(
-          source,
+          [v for v in source if pg_typing.MISSING_VALUE != v],
           value_spec=self._value_spec,
           allow_partial=self._allow_partial,
           accessor_writable=self._accessor_writable,
